@@ -63,7 +63,7 @@ CLAIMED = {
  "C04": ("exploration",
          "Relational monitor with independent arithmetic: [a]P and [b]Q are computed by Python curve models and written raw into the library, the library's e(P,Q) is "
          "raised to ab by a generic tower model, and e([a]P,[b]Q) must equal it; plus non-degeneracy, order r, identity slots, multi-pairing = product, all three "
-         "pairing variants, on BN_P256, SM9_P256 and B12_P381.", "Trusts the tower/curve models (validated against the library's measured non-residues).",
+         "pairing variants, on BN_P256, SM9_P256 and B12_P381 (k = 12 families only; the k = 8/16/18/24 families of the property are not reached).", "Trusts the tower/curve models (validated against the library's measured non-residues).",
          "runtime relational monitor (bilinearity with model-side exponentiation) + ASan/UBSan", "DESIGN.md §3 C04"),
  "C05": ("exploration",
          "Completeness, independent verdicts and mutation soundness for the signature schemes: honest signatures verify; ECDSA and RSA verdicts equal an independent "
